@@ -138,7 +138,8 @@ class Gen:
         kind = "plain"
         if allow_fancy and not self_only:
             r = rng.random()
-            kind = "corofn" if r < 0.06 else ("awaitable" if r < 0.12 else "plain")
+            boost = getattr(self, "fancy_boost", False)
+            kind = "corofn" if r < (0.4 if boost else 0.06) else ("awaitable" if r < (0.5 if boost else 0.12) else "plain")
         r = rng.random()
         if r < 0.45:
             error = ["none"]
@@ -179,10 +180,14 @@ class Gen:
     def case(self, kind=None, is_async=None):
         rng = self.rng
         self.next_cid, self.next_sid = 1, 1
+        self.ncase = getattr(self, "ncase", 0) + 1
         kind = kind or rng.choice(KINDS)
         if is_async is None:
             is_async = kind in ASYNC_OK and rng.random() < 0.4
         is_async = bool(is_async and kind in ASYNC_OK)
+        # every fifth async case mixes coroutine conditions and plain ones freely (their relative order is part of C16);
+        # decided by the case's number, not by the generator's stream, so that the other cases stay as they were
+        self.fancy_boost = is_async and self.ncase % 5 == 0
         recv = RECEIVER[kind]
         sig = gen_sig(rng, kind)
         if kind == "method" and rng.random() < 0.06:
